@@ -5,9 +5,17 @@ CONSTANTS
   CopyLists = TRUE
   LocalClusters = TRUE
   RefreshParams = TRUE
+  OwnScalers = TRUE
+  CopyOnHandOut = TRUE
+  KeyedMemo = TRUE
+  RejectKeeps = TRUE
 INVARIANT FitRepeatable
 INVARIANT PredStable
 INVARIANT StoredDqIsModelDq
 INVARIANT GateSurvivesStorage
+INVARIANT RestoredModelsIndependent
+INVARIANT ResavedScalerIsOwn
+INVARIANT HandOutsAreCopies
+INVARIANT FitDependsOnItsOwnData
 PROPERTY DataImmutable
 PROPERTY PredictPure
